@@ -43,10 +43,12 @@ type c17Case struct {
 	// TLS: the listener is a TLS listener and every client is a TLS client; the connection bookkeeping (limit,
 	// accounting, idle reaping, shutdown) is the same property on both kinds of listener.
 	TLS bool `json:"tls,omitempty"`
+	// LogFile: the export logs to a file (ExportOptions.Log.Output is a path), which Close has to close - once
+	LogFile bool `json:"log_file,omitempty"`
 }
 
 func genC17(t *rapid.T) c17Case {
-	c := c17Case{MaxConn: rapid.IntRange(1, 6).Draw(t, "max"), IdleMs: pick(t, "idle", 100, 150, 200, 300, 60000, 60000), Via: pick(t, "via", "listen", "export"), TLS: rapid.IntRange(0, 2).Draw(t, "tls") == 0}
+	c := c17Case{MaxConn: rapid.IntRange(1, 6).Draw(t, "max"), IdleMs: pick(t, "idle", 100, 150, 200, 300, 60000, 60000), Via: pick(t, "via", "listen", "export"), TLS: rapid.IntRange(0, 2).Draw(t, "tls") == 0, LogFile: rapid.IntRange(0, 2).Draw(t, "logfile") == 0}
 	n := rapid.IntRange(2, 9).Draw(t, "n")
 	for i := 0; i < n; i++ {
 		st := c17Step{Kind: pick(t, "kind", "dial", "dial", "dial", "null", "close", "close", "idle", "refuse", "stop", "closenfs", "unexport"), N: rapid.IntRange(1, 8).Draw(t, "k")}
@@ -147,6 +149,14 @@ func runC17(tb stat.TB, c c17Case) {
 		tc.Enabled, tc.CertFile, tc.KeyFile = true, certFile, keyFile
 		eopts.TLS = tc
 		clientTLS = &tls.Config{RootCAs: p.caPool, ServerName: "localhost"}
+	}
+	if c.LogFile {
+		ldir, err := os.MkdirTemp("", "verif-c17log-")
+		if err != nil {
+			tb.Fatalf("harness: %v", err)
+		}
+		defer os.RemoveAll(ldir)
+		eopts.Log = &absnfs.LogConfig{Level: "info", Format: pick2(c.MaxConn%2 == 0, "text", "json"), Output: filepath.Join(ldir, "nfs.log"), LogClientIPs: true, LogOperations: true}
 	}
 	n, err := absnfs.New(v, eopts)
 	if err != nil {
@@ -738,9 +748,16 @@ func runC17(tb stat.TB, c c17Case) {
 			time.Sleep(20 * time.Millisecond)
 		}
 	}
-	stat.Case(c, nt, "via_"+c.Via, fmt.Sprintf("refusals_%v", refusals), fmt.Sprintf("tls_%v", c.TLS))
+	stat.Case(c, nt, "via_"+c.Via, fmt.Sprintf("refusals_%v", refusals), fmt.Sprintf("tls_%v", c.TLS), fmt.Sprintf("log_file_%v", c.LogFile))
 }
 
 var propC17 = defProp("C17", "TestC17", genC17, runC17)
 
 func TestC17(t *testing.T) { propC17.Test(t) }
+
+func pick2(cond bool, a, b string) string {
+	if cond {
+		return a
+	}
+	return b
+}
